@@ -18,13 +18,17 @@ def showFs (v : List Float) : String := if v.isEmpty then "-" else ",".intercala
 def showCoord (c : C) : String :=
   s!"{showFs c.vec}/{showFloatBits c.error}/{showFloatBits c.adjustment}/{showFloatBits c.height}"
 
+/-- outputs print every NaN as `nan` -/
+def floatOfTok? (s : String) : Option Float :=
+  if s == "nan" then some (Float.ofBits 0x7ff8000000000001) else floatOfHex? s
+
 def parseFs (s : String) : Option (List Float) :=
-  if s == "-" then some [] else (s.splitOn ",").mapM floatOfHex?
+  if s == "-" then some [] else (s.splitOn ",").mapM floatOfTok?
 
 def parseCoord (s : String) : Option C :=
   match s.splitOn "/" with
   | [v, e, a, h] =>
-    match parseFs v, floatOfHex? e, floatOfHex? a, floatOfHex? h with
+    match parseFs v, floatOfTok? e, floatOfTok? a, floatOfTok? h with
     | some v, some e, some a, some h => some ⟨v, e, a, h⟩
     | _, _, _, _ => none
   | _ => none
